@@ -30,6 +30,12 @@ def inline_silent_rules(expr: Expression, rules: Mapping[str, Rule]) -> Expressi
     """Inline silent rules."""
     if isinstance(expr, Identifier) and not expr.tag:
         rule = rules.get(expr.value)
-        if rule and rule.modifier & SILENT:
+        # The bodies of WHITESPACE and COMMENT are implicitly atomic, which an
+        # inlined copy of the body would not be.
+        if (
+            rule
+            and rule.modifier & SILENT
+            and rule.name not in ("WHITESPACE", "COMMENT")
+        ):
             return rule.expression
     return expr
